@@ -28,7 +28,7 @@ def array_jobs(tier, prop):
 def _array_jobs(tier, prop):
     nmax = 4 if tier == "thorough" else 3
     J = []
-    L = ["src/Exception.c", "src/Iter.c", "stubs/throw.c"]
+    L = ["src/Exception.c", "src/Iter.c", "src/Pointer.c", "stubs/throw.c"]
     F = {"push": ["Array_Push", "Array_Reserve_More", "Array_Alloc", "Array_Item", "Array_Step"],
          "pop": ["Array_Pop", "Array_Reserve_Less"], "push_at": ["Array_Push_At", "Array_Reserve_More", "Array_Alloc"],
          "pop_at": ["Array_Pop_At", "Array_Reserve_Less"], "get_set": ["Array_Get", "Array_Set"], "set_bad": ["Array_Set"],
@@ -84,7 +84,7 @@ def _array_jobs(tier, prop):
 def _list_jobs(tier, prop):
     nmax = 5 if tier == "thorough" else 4     # List_At walks from either end depending on the half: length 4 is the first with an interior back-half index
     J = []
-    L = ["src/Exception.c", "src/Iter.c", "stubs/throw.c"]
+    L = ["src/Exception.c", "src/Iter.c", "src/Pointer.c", "stubs/throw.c"]
     F = {"push": ["List_Push", "List_Alloc", "List_Link"], "pop": ["List_Pop", "List_Unlink", "List_Free"],
          "push_at": ["List_Push_At", "List_At", "List_Link", "List_Alloc"], "pop_at": ["List_Pop_At", "List_At", "List_Unlink", "List_Free"],
          "get_set": ["List_Get", "List_Set", "List_At"], "set_bad": ["List_Set", "List_At"], "mem_rem": ["List_Mem", "List_Rem", "List_Unlink"],
@@ -142,7 +142,7 @@ def _list_jobs(tier, prop):
 def _tuple_jobs(tier, prop):
     nmax = 4 if tier == "thorough" else 3
     J = []
-    L = ["src/Exception.c", "src/Iter.c", "stubs/throw.c"]
+    L = ["src/Exception.c", "src/Iter.c", "src/Pointer.c", "stubs/throw.c"]
     F = {"push": ["Tuple_Push", "Tuple_Len"], "pop": ["Tuple_Pop"], "push_at": ["Tuple_Push_At"], "pop_at": ["Tuple_Pop_At"],
          "get_set": ["Tuple_Get", "Tuple_Set"], "set_bad": ["Tuple_Set"], "mem_rem": ["Tuple_Mem", "Tuple_Rem", "Tuple_Pop_At"],
          "resize": ["Tuple_Resize"], "del": ["Tuple_Del"], "concat": ["Tuple_Concat"], "assign": ["Tuple_Assign"],
